@@ -89,3 +89,13 @@ Qed.
 Corollary decompress_fuel_is_input_length code : length (0 :: code ++ repeat 0 (Z.to_nat (le_decode (pyslice code (Some (-4)) None))))
   = S (length code + Z.to_nat (le_decode (pyslice code (Some (-4)) None))).
 Proof. cbn [length]. rewrite app_length, repeat_length. reflexivity. Qed.
+
+(* the buffer (hence the fuel, hence the work) is capped by a constant whatever the trailer claims *)
+Theorem decompress_size_cap code :
+  len code + le_decode (pyslice code (Some (-4)) None) > CODE_MAX -> exists e, decompress code = Err e.
+Proof.
+  intros H. unfold decompress.
+  destruct (len code <? 8); [eexists; reflexivity|]. destruct (len code >? CODE_MAX); [eexists; reflexivity|].
+  match goal with |- context [if ?c <? 0 then _ else _] => destruct (c <? 0); [eexists; reflexivity|] end.
+  destruct (len code + le_decode (pyslice code (Some (-4)) None) >? CODE_MAX) eqn:E; [eexists; reflexivity|lia].
+Qed.
